@@ -37,3 +37,13 @@ package http
 //@   ensures cookie-and-parameter-agree: err == nil ==> callres("httphelper.CookieHandler.CheckCookie", 1) == nil
 //@        && result0 == callres("httphelper.CookieHandler.CheckCookie", 0) && result0 == callres("net/http.Request.FormValue", 0)
 //@        && callarg("net/http.Request.FormValue", 1) == name && callarg("httphelper.CookieHandler.CheckCookie", 2) == name
+
+// ---- C11: response parameters ----
+// The parameter set of an authorization response is the encoder's (schema) encoding of exactly the
+// response value, in a map of its own.
+//@ func httphelper.URLEncodeParams
+//@   requires valid(encoder)
+//@   modifies os(encoder)
+//@   ensures fail-closed: err != nil ==> result0 == nil
+//@   ensures encoded: err == nil ==> result0 != nil && fresh(result0) && schemaEncoded(resp, result0)
+//@        && callarg("httphelper.Encoder.Encode", 0) == resp
